@@ -444,6 +444,13 @@ class ProgGen:
                             "ref": {rng.choice(base): 1}})
             elif r < 0.96:
                 out.append({"id": self.sid(), "k": "gc"})
+            elif r < 0.985:
+                # a parameter value that cannot be hashed: with a redefining context the combination key
+                # cannot be computed, the activation must fail and change nothing
+                red = [i for i in self.ctx_ok if self.spec["contexts"][i]["redefs"]]
+                if red:
+                    out.append({"id": self.sid(), "k": "enable", "ctxs": [self.ctx_ref(rng.choice(red))],
+                                "kw": {"n1": ["2", "3"]}, "unhashable": True})
             if depth > 0 and rng.random() < 0.3:
                 break
         return out
@@ -1287,6 +1294,8 @@ class _Run:
         return args, (None if bad else idxs)
 
     def kwargs(self, kw):
+        if any(isinstance(v, list) for v in kw.values()):
+            return {k: [self.num(x) for x in v] if isinstance(v, list) else self.num(v) for k, v in kw.items()}, {}
         return {k: self.num(v) for k, v in kw.items()}, {k: frac(v) for k, v in kw.items()}
 
     def stmt(self, s):
@@ -1302,6 +1311,8 @@ class _Run:
         if k == "enable":
             args, idxs = self.ctx_args(ri, s["ctxs"])
             pkw, mkw = self.kwargs(s["kw"])
+            if s.get("unhashable"):
+                idxs = None  # must fail
             out = "ok"
             try:
                 ureg.enable_contexts(*args, **pkw)
@@ -1413,7 +1424,8 @@ class _Run:
                 # was accepted: the activation that had to fail did not, whatever is active now.
                 self.violate("C12.invalid-accepted", s["id"], {
                     "form": form, "contexts": s.get("ctxs") or [s.get("ctx")], "stack": _stack_json(model),
-                    "invalid": [self.spec["contexts"][r["c"]]["bad"] if "c" in r else "unknown name"
+                    "invalid": ["unhashable parameter"] if s.get("unhashable") else
+                               [self.spec["contexts"][r["c"]]["bad"] if "c" in r else "unknown name"
                                 for r in (s.get("ctxs") or [s.get("ctx")])
                                 if "bad" in r or self.spec["contexts"][r["c"]]["bad"]]})
                 raise _EndRun()
